@@ -70,6 +70,7 @@ def parser_for(**kw):
 
 
 def check_explicit(ctx, c):
+    ctx.remember(check_explicit, c)
     o, y, m, d, sep, pad, tsuf, lang, pl = c["order"], c["y"], c["m"], c["d"], c["sep"], c["pad"], c["tsuf"], c["lang"], c["pl"]
     s = render(o, y, m, d, sep, pad) + tsuf
     exp = datetime(y, m, d)
@@ -123,6 +124,8 @@ def all_locales():
 def check_locale(ctx, c):
     from dateparser.languages.loader import LocaleDataLoader
 
+    if not c.get("after"):
+        ctx.remember(check_locale, c)
     lang, loc, pl, y, m, d, sep = c["lang"], c["loc"], c["pl"], c["y"], c["m"], c["d"], c["sep"]
     info = LocaleDataLoader().get_locale(loc).info
     lo = info.get("date_order")
@@ -211,6 +214,7 @@ def run_shard(ctx, desc):
                             check_locale(ctx, {"kind": "locale", "lang": lang, "loc": loc, "pl": pl, "y": y, "m": m, "d": d, "sep": sep})
                 disturb(ctx, lang, loc)
             ctx.sample({"locales_walked": [l for _, l in locs[:8]], "n": len(locs)})
+        ctx.reask()
     finally:
         ac.stop()
     for k, v in ac.counts.items():
